@@ -23,11 +23,24 @@ type stressCase struct {
 	Observers int  `json:"observers"`
 	RemoveAll bool `json:"remove_all"`
 	Yield     int  `json:"yield_every"`
+	Lag       bool `json:"lagging_consumers,omitempty"` // the consumers start late: the queue fills up to its capacity first
+}
+
+// capacities: small ones, the neighbours of the default (16), and large ones (a backlog of dozens of values
+// is where code that handles long lists differently comes into play)
+func genCapacity(s core.Source, small int) uint {
+	switch s.Choose(4, "capclass") {
+	case 0:
+		return uint(15 + s.Choose(3, "cap"))
+	case 1:
+		return uint(31 + s.Choose(100, "cap"))
+	}
+	return uint(1 + s.Choose(small, "cap"))
 }
 
 func genStress(s core.Source) stressCase {
-	return stressCase{Cap: uint(1 + s.Choose(8, "cap")), Producers: 1 + s.Choose(8, "producers"), Consumers: 1 + s.Choose(8, "consumers"),
-		PerProd: 20 + s.Choose(200, "values"), Observers: s.Choose(3, "observers"), RemoveAll: s.Choose(4, "removeall") == 0, Yield: 1 + s.Choose(7, "yield")}
+	return stressCase{Cap: genCapacity(s, 8), Producers: 1 + s.Choose(8, "producers"), Consumers: 1 + s.Choose(8, "consumers"),
+		PerProd: 20 + s.Choose(200, "values"), Observers: s.Choose(3, "observers"), RemoveAll: s.Choose(4, "removeall") == 0, Yield: 1 + s.Choose(7, "yield"), Lag: s.Choose(3, "lag") == 0}
 }
 
 func withTimeout(d time.Duration, wg *sync.WaitGroup) bool {
@@ -78,6 +91,9 @@ func execStress(c stressCase, _ core.Source) (res core.Result) {
 		i := i
 		all.Add(1)
 		go guard(fmt.Sprintf("consumer %d", i), func() {
+			if c.Lag {
+				time.Sleep(time.Millisecond)
+			}
 			for k := 0; ; k++ {
 				v, ok := q.RemoveHead()
 				if !ok {
@@ -221,6 +237,7 @@ type pipeStressCase struct {
 	Slow      int    `json:"slow_reader"` // index of a reader that lags (or -1)
 	Burst     int    `json:"burst"`
 	FeedFirst bool   `json:"feed_first,omitempty"`
+	Lag       bool   `json:"lagging_readers,omitempty"`
 }
 
 // countingGroup is a sync.WaitGroup that also counts the registrations
@@ -235,8 +252,8 @@ func (g *countingGroup) Add(delta int) {
 }
 
 func genPipeStress(s core.Source) pipeStressCase {
-	c := pipeStressCase{Topology: core.Pick(s, []string{"Fork", "Split", "SplitJoin"}, "topology"), FanOut: 2 + s.Choose(7, "fanout"), Cap: uint(1 + s.Choose(4, "cap")),
-		Burst: 1 + s.Choose(16, "burst")}
+	c := pipeStressCase{Topology: core.Pick(s, []string{"Fork", "Split", "SplitJoin"}, "topology"), FanOut: 2 + s.Choose(7, "fanout"), Cap: genCapacity(s, 4),
+		Burst: 1 + s.Choose(16, "burst"), Lag: s.Choose(3, "lag") == 0}
 	switch s.Choose(4, "lenclass") {
 	case 0:
 		c.Length = s.Choose(3, "len")
@@ -297,6 +314,10 @@ func execPipeStress(c pipeStressCase, _ core.Source) (res core.Result) {
 					failure.CompareAndSwap(nil, core.Violate("C06/stress/panicked", "reader %d panicked: %s", i, lib.Short(e)))
 				}
 			}()
+			if c.Lag {
+				// lagging readers: the outputs fill up to their capacity before anybody reads
+				time.Sleep(2 * time.Millisecond)
+			}
 			for k := 0; ; k++ {
 				if i == c.Slow && k%c.Burst == 0 {
 					time.Sleep(50 * time.Microsecond)
